@@ -39,7 +39,11 @@ func FQDN(domain string) string {
 // domains are simply converted to local-case using strings.ToLower, but the
 // error is also returned.
 func ForLookup(domain string) (string, error) {
-	uDomain, err := idna.ToUnicode(domain)
+	// idna.ToUnicode recognizes the ACE prefix only in lower case ("xn--"),
+	// but DNS labels are case-insensitive (RFC 5890, Section 2.3.2.1; RFC 3492,
+	// Section 5 for the encoded part), so "XN--E1AYBC" names the same domain.
+	// ASCII letters are lower-cased below anyway.
+	uDomain, err := idna.ToUnicode(asciiLower(domain))
 	if err != nil {
 		return strings.ToLower(domain), err
 	}
@@ -50,6 +54,23 @@ func ForLookup(domain string) (string, error) {
 	uDomain = strings.ToLower(uDomain)
 	uDomain = strings.TrimSuffix(uDomain, ".")
 	return uDomain, nil
+}
+
+// asciiLower converts ASCII upper case letters to lower case and leaves all
+// other bytes alone.
+func asciiLower(s string) string {
+	for i := 0; i < len(s); i++ {
+		if c := s[i]; 'A' <= c && c <= 'Z' {
+			b := []byte(s)
+			for j := i; j < len(b); j++ {
+				if 'A' <= b[j] && b[j] <= 'Z' {
+					b[j] += 'a' - 'A'
+				}
+			}
+			return string(b)
+		}
+	}
+	return s
 }
 
 // Equal reports whether domain1 and domain2 are equivalent as defined by
